@@ -1,6 +1,61 @@
 from struct import pack, unpack
 
+MAGIC = bytes([0xAC, 0xBE])
+WIDTH = 4
+LIMIT = 3 * WIDTH + 1
+REBOUND = 1
+REBOUND = 2
+
+
+def _blk(a, idx):
+    return pack('<BH', 1, a) + bytes([idx & 0xff])
+
+
+def _clamp(v, hi):
+    w = min(v, hi)
+    if w > 9:
+        return w - 9
+    return w
+
+
 class K:
+    STEP = 2
+
+    def _mix(self, x, y):
+        return (x ^ y) & 0xff
+
+    @staticmethod
+    def _sum2(a, b):
+        t = a + b
+        return t * K.STEP
+
+    def f4(self, data, n):
+        """module / class constants, helpers (expression, multi-statement, method, static), guard clauses,
+        to_bytes, b''.join, `in`, comprehension forms"""
+        if len(data) > LIMIT:
+            return (0, MAGIC, b'')
+        if n in (1, 3, 5):
+            head = MAGIC + (len(data) & 0xffff).to_bytes(2, 'little') + n.to_bytes(WIDTH, byteorder='big')
+        else:
+            head = b''.join([_blk(n, i + 1) for i in range(2)])
+        acc = []
+        for i in range(len(data)):
+            acc.append(self._mix(data[i], n))
+        out = b''
+        for i in range(len(acc)):
+            out += bytes([self._mix(data[i], i)])
+        return (_clamp(K._sum2(n, len(data)), 40) + self.STEP, head, out + b'')
+
+    def bad_rebound(self, data):
+        return len(data) + REBOUND
+
+    def bad_helper(self, data):
+        return self._effect(data)
+
+    def _effect(self, data):
+        self.seen = data
+        return len(data)
+
     def f1(self, data, n):
         """early return, tuple, min/max, pack"""
         if len(data) == 0:
